@@ -401,6 +401,17 @@ def r3(index, rep, flow):
     from .lanes import role_of
     params = [a.arg for a in fn.args.args]
     tg = [inl.src(e) for e in st.targets[0].elts] if isinstance(st.targets[0], ast.Tuple) else []
+    if not tg:
+        # the pair kept whole first (`t = bump(...); x.kcals = t[0]; y.kcals = t[1]`): the stores that receive result k of this call
+        host_inl = Inliner(host)
+        call_txt = host_inl.src(c)
+        by_slot = {}
+        for t_, v_ in host_inl.stores:
+            vt = host_inl.src(v_)
+            if vt.startswith(call_txt + "[") and vt.endswith("]") and vt[len(call_txt) + 1:-1].isdigit():
+                by_slot.setdefault(int(vt[len(call_txt) + 1:-1]), []).append(inl.src(t_))
+        if sorted(by_slot) == [0, 1] and all(len(v_) == 1 for v_ in by_slot.values()):
+            tg = [by_slot[0][0], by_slot[1][0]]
     # the callee's own slots, from its body: result k = X_k + ..., potential increase of X_k = minimum(X_k + inc, C_k) - X_k
     from .core import bind_args
     bump_fn, slots = bump_slots(index)
